@@ -239,10 +239,20 @@ CHECKS['C16'] = {
     'explanation': 'units lfw, lfp, unq, lrt',
 }
 
+CHECKS['C20'] = {
+    'level': 'other',
+    'units': ['cch', 'blk'], 'kani': [],
+    'technique': 'contract-based deductive verification (Verus) of the handler-side facts C20 depends on, over an ASSUMED contract of the external cache crate (lru_time_cache)',
+    'level_text': 'Partial, and relative to an assumed dependency contract: how long cached state lives is decided inside the external crate lru_time_cache from the wall clock; that behaviour is assumed as the model of unit cch (entries idle longer than the expiry are purged on the next insertion and never returned, nothing else is evicted without a capacity bound, entry() refreshes), with retention / expiry / reclamation proved as lemmas over that model. What is verified on coap-lite\'s own code is the rest of the argument: BlockHandler::new builds the cache with exactly the configured duration and without a capacity bound (contract on the real constructor; the stand-in type offers the crate\'s three constructors, so a capacity-bounded or re-derived duration fails the clause cache-built-as-configured), the default configuration has a positive duration, and the handler touches the cache only through states.entry(key).or_insert(default) under the key of the request in hand (unit blk, rule R24: any other use of the cache field does not extract). Nothing about real time is checked.',
+    'level_note': 'This is the weakest claim of the set: the time semantics is an assumption, not a result. It is registered because every change to coap-lite that can break C20 has to go through the constructor call or through a new use of the cache field, and both are decided here (exit 1 for the constructor, exit 2 for an unreadable new use).',
+    'trusted': [T_VERUS, 'the whole time behaviour of lru_time_cache::LruCache (assumed model in unit cch, from the crate documentation)', 'core::time::Duration: from_secs / from_millis / as_secs / as_millis over an abstract length in nanoseconds; equal length ==> equal value'] + T_BLK,
+    'not_covered': ['the external crate lru_time_cache itself (expiry from Instant::now(), purge on insert, LRU order)', 'real elapsed time'],
+    'explanation': 'units cch, blk',
+}
+
 HOOK_COMMITS = ['7321ffc', '9fef815']
 
 NOT_APPLICABLE = [
-    {'property_id': 'C20', 'reason': 'retention/expiry is decided inside the external lru_time_cache crate from Instant::now(); no contract on coap-lite functions can express elapsed wall-clock time without assuming the property'},
 ]
 _PENDING = 'check not built yet in this session (contract-based route planned in DESIGN.md section 4); not claimed until it passes on the reference tree and fails on seeded mutants'
 for _p in ['C01','C02','C04','C05','C06','C07','C08','C09','C10','C11','C12','C13','C14','C15','C17','C18','C19']:
